@@ -1,7 +1,95 @@
 import Driver.Common
+import Driver.C01
+import Log4rsModel.Routing.Spec
+/-
+C02 case:   initPath  targets(,)  then 4 fields per configuration (as C01): appenders rootLevel rootRefs loggers
+            — the first configuration is installed by the init path, the others by Handle::set_config
+observation: steps joined by `/`, per step:  max_level : enabled bits (targets × levels 1..5) : macro deliveries (, per target × level)
+-/
 namespace Driver.C02
-open Driver
+open Log4rs.Proto Log4rs.Routing Log4rs.Routing.Tree Driver
 
-def handle : Handler := fun _ _ => badCase "unimplemented"
+def decPath (s : String) : Option InitPath :=
+  match s with
+  | "config" => some .config
+  | "handler" => some .configWithErrHandler
+  | "raw" => some .rawConfig
+  | "file" => some .file
+  | _ => none
+
+def decConfigs : List String → Option (List Config)
+  | [] => some []
+  | a :: l :: r :: ls :: rest =>
+    match C01.decConfig a l r ls, decConfigs rest with
+    | some c, some cs => some (c :: cs)
+    | _, _ => none
+  | _ => none
+
+def levels : List Nat := [1, 2, 3, 4, 5]
+
+def probesOf (targets : List Name) : List (Name × Nat) :=
+  targets.flatMap fun t => levels.map fun l => (t, l)
+
+def renderStep (max : Nat) (bits : List Bool) (deliv : List (List Name)) : String :=
+  toString max ++ ":" ++ String.join (bits.map encBool) ++ ":" ++ C01.renderDeliveries deliv
+
+def modelStep (s : State) (targets : List Name) : String :=
+  let ps := probesOf targets
+  match mapM? (fun p => enabled s.cfg p.1 p.2) ps, mapM? (fun p => macroLog s p.1 p.2) ps with
+  | some bits, some deliv => renderStep s.globalMax bits deliv
+  | _, _ => "PANIC"
+
+def specStep (cfg : Config) (targets : List Name) : String :=
+  let ps := probesOf targets
+  renderStep (specMaxLevel cfg) (ps.map fun p => specEnabled cfg p.1 p.2) (ps.map fun p => specDeliver cfg p.1 p.2)
+
+/-- only a strict descendant is as verbose as the global maximum -/
+def deepVerbose (cfg : Config) : Bool :=
+  cfg.rootLevel < specMaxLevel cfg &&
+  cfg.loggers.all fun l => l.level < specMaxLevel cfg || (parent cfg l).isSome
+
+def stepTags (cfgs : List Config) : List String :=
+  let maxes := cfgs.map specMaxLevel
+  let pairs := maxes.zip (maxes.drop 1)
+  (if pairs.any (fun (a, b) => a < b) then ["max-up"] else []) ++
+  (if pairs.any (fun (a, b) => b < a) then ["max-down"] else []) ++
+  (if cfgs.any deepVerbose then ["deep-verbose-only"] else []) ++
+  (if cfgs.any (fun c => c.rootLevel < specMaxLevel c) then ["descendant-more-verbose"] else []) ++
+  (if cfgs.any (fun c => specMaxLevel c = 0) then ["all-off"] else []) ++
+  (if cfgs.any C01.hasImplied then ["implied-intermediate"] else []) ++
+  (if cfgs.length = 1 then ["no-reconfig"] else ["reconfig"])
+
+def handle : Handler := fun cas obs =>
+  match cas, obs with
+  | path :: targets :: cfgFields, [obsLine] =>
+    let obs := splitOnChar '/' obsLine
+    match decPath path, C01.decNames ',' targets, decConfigs cfgFields with
+    | some path, some targets, some (first :: reconfigs) =>
+      let cfgs := first :: reconfigs
+      let steps := (List.range cfgs.length).map fun i =>
+        match run { path, first, reconfigs := reconfigs.take i } with
+        | some s => modelStep s targets
+        | none => "PANIC"
+      let specs := cfgs.map fun c => specStep c targets
+      let verdict :=
+        if !cfgs.all validB then "FAIL:generator produced an invalid configuration;sig=C02/invalid-config"
+        else if obs = specs then "ok"
+        else
+          let idx := ((obs.zip specs).takeWhile (fun (a, b) => a = b)).length
+          let o := obs.getD idx "?"
+          let s := specs.getD idx "?"
+          let part :=
+            match splitOnChar ':' o, splitOnChar ':' s with
+            | [om, ob, _], [sm, sb, _] =>
+              if om ≠ sm then "max-level" else if ob ≠ sb then "enabled" else "macro-delivery"
+            | _, _ => "shape"
+          "FAIL:step " ++ toString idx ++ " " ++ part ++ " expected " ++ (s.take 80).toString ++ " got " ++
+            (o.take 80).toString ++ ";sig=C02/" ++ part
+      { model := "/".intercalate steps, spec := verdict,
+        tags := (match path with
+          | .config => "init_config" | .configWithErrHandler => "init_config_with_err_handler"
+          | .rawConfig => "init_raw_config" | .file => "init_file") :: stepTags cfgs }
+    | _, _, _ => badCase "decode"
+  | _, _ => badCase "arity"
 
 end Driver.C02
